@@ -1672,6 +1672,13 @@ class Interp:
         if isinstance(op, ast.Sub):
             return self.num(a, node) - self.num(b, node)
         if isinstance(op, ast.Mult):
+            if isinstance(a, BufVal) and isinstance(b, Lin) or isinstance(b, BufVal) and isinstance(a, Lin):
+                buf, cnt = (a, b) if isinstance(a, BufVal) else (b, a)
+                if len(buf.segs) == 1 and buf.segs[0][1].is_const() and buf.segs[0][1].const == 0:
+                    src, lo, hi = buf.segs[0]
+                    if hi.is_const():
+                        return BufVal([(src + "*", Lin.num(0), cnt.scale(hi.const))])
+                raise Undecided("repetition of a byte buffer")
             if isinstance(a, (str,)) and isinstance(b, Lin) and b.is_const():
                 return a * int(b.const)
             if isinstance(a, Lst) and isinstance(b, Lin) and b.is_const():
@@ -2261,6 +2268,20 @@ class Interp:
                 xs.items.insert(pos, v)
                 return None
             return Lin.num(pos)
+        if n in ("os.path.join", "os.path.split", "os.path.splitext", "os.path.basename", "os.path.dirname") and all(isinstance(a, str) for a in args):
+            import os.path as _p
+
+            r = getattr(_p, n.split(".")[-1])(*args)
+            return Tup(list(r)) if isinstance(r, tuple) else r
+        if n == "os.path.join":
+            return mkjoin("/", [a for a in args])  # symbolic component: kept as a term
+        if n in ("math.log10", "math.log", "math.log2", "math.sqrt", "math.sin", "math.cos", "math.exp") and all(isinstance(a, Lin) and a.is_const() for a in args):
+            import math as _m
+
+            try:
+                return Lin.num(Fraction(getattr(_m, n.split(".")[1])(*[float(a.const) for a in args]))).as_float()
+            except (ValueError, OverflowError):
+                raise PyRaise("ValueError", node)
         if n == "io.StringIO":
             chunks = [args[0]] if args else []
             return MockObj({
